@@ -8,12 +8,6 @@ open Y
 
 variable {V : Type}
 
-/-- the driver parameters for a dense table of grammar `G` -/
-def dparams (G : Grammar) (T : Dense) (n : Nat) (sem : Nat → List V → V) (eofVal : V) : Params V :=
-  { L := cell T, errC := errCode n, accC := accCode n,
-    rule := fun r => if r = 0 then none else (G.rules[r]?).map (fun rl => (rl.lhs, rl.rhs.length)),
-    sem := sem, eofVal := eofVal }
-
 def stTop (st : List (Entry V)) : Nat := match st with | [] => 0 | e :: _ => e.st
 
 /-- entries above the bottom follow edges of the automaton -/
